@@ -474,3 +474,138 @@ Proof.
     pose proof (in_another_chunk_failed c s _ size align r s1 e Hc Hg Hr HfA Hfresh H) as R0.
     rewrite Ec in R0. exact R0.
 Qed.
+
+(* ================================================================ invariant through prepare / commit *)
+(* preparing a slice keeps the geometric invariant and every placed range where it was: no
+   position of a chunk that holds a range moves; the slow path at most makes a later (reset or
+   new) chunk current *)
+Lemma prepare_keeps c s size align r s' res :
+  cfg_ok c -> ginv c s -> resp_ok c s size align r ->
+  raw_prepare_range c s size align r = (s', res) ->
+  frame s s' /\ ginv c s' /\ (forall q sz, 0 <= sz -> placed c s q sz -> placed c s' q sz) /\
+  match res with
+  | inl rng => exists i ch, cur s' = Cur i /\ nth_error (chunks s') i = Some ch /\ chunk_prepare c ch size align = Some rng
+  | inr _ => True
+  end.
+Proof.
+  intros Hc Hg Hr H. pose proof Hg as (Hok & Hd & Hm & Hcur).
+  set (f := fun ch : chunk => match chunk_prepare c ch size align with Some rng => Some (rng, ch) | None => None end) in *.
+  assert (Hsame : forall ch p ch1, f ch = Some (p, ch1) -> ch1 = ch).
+  { intros ch p ch1 Hf. unfold f in Hf. destruct (chunk_prepare c ch size align); [|discriminate]. injection Hf as _ <-. reflexivity. }
+  assert (Hval : forall ch p ch1, f ch = Some (p, ch1) -> chunk_prepare c ch size align = Some p).
+  { intros ch p ch1 Hfe. unfold f in Hfe. destruct (chunk_prepare c ch size align); [|discriminate]. injection Hfe as <- _. reflexivity. }
+  assert (Hf : forall ch p ch1, chunk_ok c ch -> (malign s | cpos ch) -> f ch = Some (p, ch1) ->
+            chunk_ok c ch1 /\ same_geom ch ch1 /\ (malign s | cpos ch1) /\ chunk_prepare c ch1 size align = Some p).
+  { intros ch p ch1 Hcok Hcm Hfe. rewrite (Hsame _ _ _ Hfe). split; [exact Hcok|]. split; [apply same_geom_refl|]. split; [exact Hcm|exact (Hval _ _ _ Hfe)]. }
+  assert (Hslow : forall h, h = cur s -> in_another_chunk c s h size align f r = (s', res) ->
+            frame s s' /\ ginv c s' /\ (forall q sz, 0 <= sz -> placed c s q sz -> placed c s' q sz) /\
+            match res with
+            | inl rng => exists i ch, cur s' = Cur i /\ nth_error (chunks s') i = Some ch /\ chunk_prepare c ch size align = Some rng
+            | inr _ => True
+            end).
+  { intros h -> Hs. unfold in_another_chunk in Hs. destruct (cur s) as [i| |] eqn:Ec; [| |contradiction].
+    - destruct Hcur as (chi & Eni & Hmpi). pose proof (nth_error_some_lt _ _ _ Eni) as Hilt.
+      destruct (walk_next c f (chunks s) i (length (chunks s))) as [[cs j] wres] eqn:Ew.
+      destruct (walk_next_spec c Hc (malign s) Hm (Z * Z) f (fun ch1 p => chunk_prepare c ch1 size align = Some p) Hf _ _ _ _ _ _ Hok Hilt Ew)
+        as (W1 & W2 & W3 & W4 & W5 & W6 & W7 & W8).
+      pose proof (Forall2_length _ _ _ W2) as Hlen.
+      assert (Hold : forall q sz, 0 <= sz -> placed c s q sz ->
+                exists k0 chk, (k0 <= i)%nat /\ nth_error cs k0 = Some chk /\ in_chunk c chk q sz /\
+                               (k0 = i -> alloc_side c chk q sz)).
+      { intros q sz Hsz (k0 & chk & Hk0 & Hin & Hside). rewrite Ec in Hside. destruct Hside as [Hle Hs0].
+        exists k0, chk. split; [exact Hle|]. split; [rewrite W4 by exact Hle; exact Hk0|]. split; assumption. }
+      assert (Hcurj : exists chj, nth_error cs j = Some chj /\ (malign s | cpos chj)).
+      { destruct (Nat.eq_dec j i) as [->|Hne]; [exists chi; split; [rewrite W4 by lia; exact Eni|exact Hmpi]|apply W6; lia]. }
+      assert (Hg0 : ginv c (upd_cur (upd_chunks s cs) (Cur j))).
+      { unfold ginv. cbn [chunks cur upd_cur upd_chunks malign aligns].
+        split; [exact W1|]. split; [eapply chunks_disjoint_same_geom; eassumption|]. split; [exact Hm|exact Hcurj]. }
+      assert (Hpl0 : forall q sz, 0 <= sz -> placed c s q sz -> placed c (upd_cur (upd_chunks s cs) (Cur j)) q sz).
+      { intros q sz Hsz Hq. destruct (Hold q sz Hsz Hq) as (k0 & chk & Hle & Hk0 & Hin & Hs0).
+        exists k0, chk. cbn [chunks cur upd_cur upd_chunks]. split; [exact Hk0|]. split; [exact Hin|].
+        split; [lia|]. intros ->. apply Hs0. lia. }
+      destruct wres as [p|].
+      + injection Hs as <- <-. split; [repeat split|]. split; [exact Hg0|]. split; [exact Hpl0|].
+        destruct (W8 p eq_refl) as (chj & Ej & Hq). exists j, chj. cbn [chunks cur upd_cur upd_chunks]. split; [reflexivity|]. split; [exact Ej|exact Hq].
+      + set (s0 := upd_cur (upd_chunks s cs) (Cur j)) in *.
+        assert (Hr0 : resp_ok c s0 size align r) by (eapply resp_ok_same_geom; [exact W2|exact Hr]).
+        destruct (grow_arena c s0 size align r) as [s1 [e|]] eqn:Eg.
+        * injection Hs as <- <-.
+          destruct (grow_arena_spec c s0 size align r s1 (Some e) Hc Hr0 Eg) as (Hfr & Ech & Ecu).
+          cbn [chunks upd_cur upd_chunks s0] in Ech.
+          assert (Hal : malign s1 = malign s) by (unfold malign; destruct Hfr as (_ & _ & _ & -> & _); reflexivity).
+          split; [eapply frame_trans; [|eapply frame_trans; [exact Hfr|]]; repeat split|].
+          split.
+          { unfold ginv. cbn [chunks cur upd_cur]. change (malign (upd_cur s1 (Cur i))) with (malign s1). rewrite Ech, Hal.
+            split; [exact W1|]. split; [eapply chunks_disjoint_same_geom; eassumption|]. split; [exact Hm|].
+            exists chi. split; [rewrite W4 by lia; exact Eni|exact Hmpi]. }
+          split; [|exact I].
+          intros q sz Hsz Hq. destruct (Hold q sz Hsz Hq) as (k0 & chk & Hle & Hk0 & Hin & Hs0).
+          exists k0, chk. cbn [chunks cur upd_cur]. rewrite Ech. split; [exact Hk0|]. split; [exact Hin|].
+          split; [exact Hle|exact Hs0].
+        * destruct (grow_arena_spec c s0 size align r s1 None Hc Hr0 Eg)
+            as (Hfr & ch & addr & g & -> & Ech & Ecu & Hchok & Hc16 & Ecb & Ecg).
+          cbn [chunks upd_cur upd_chunks s0] in Ech, Ecu.
+          assert (Hal : malign s1 = malign s) by (unfold malign; destruct Hfr as (_ & _ & _ & -> & _); reflexivity).
+          rewrite Ecu in Hs. rewrite Ech in Hs at 1. rewrite nth_error_app_last in Hs.
+          assert (F1 : frame s s1) by (eapply frame_trans; [|exact Hfr]; repeat split).
+          assert (F2 : Forall (chunk_ok c) (chunks s1)).
+          { rewrite Ech. apply Forall_app. split; [exact W1|constructor; [exact Hchok|constructor]]. }
+          assert (F3 : chunks_disjoint (chunks s1)).
+          { rewrite Ech. apply (chunks_disjoint_app c); [exact Hc|eapply chunks_disjoint_same_geom; eassumption|].
+            intros ch0 Hin0. destruct Hr0 as (_ & _ & _ & _ & _ & R6). specialize (R6 ch0 Hin0). rewrite Ecb, Ecg. lia. }
+          assert (F5 : nth_error (chunks s1) (length cs) = Some ch) by (rewrite Ech; apply nth_error_app_last).
+          assert (F6 : (malign s1 | cpos ch)).
+          { rewrite Hal. eapply Z.divide_trans; [apply min_align_div16; exact Hm|exact Hc16]. }
+          assert (Hs1 : frame s s1 /\ ginv c s1 /\ (forall q sz, 0 <= sz -> placed c s q sz -> placed c s1 q sz)).
+          { split; [exact F1|]. split.
+            - unfold ginv. split; [exact F2|]. split; [exact F3|]. split; [rewrite Hal; exact Hm|].
+              rewrite Ecu. exists ch. split; [exact F5|exact F6].
+            - intros q sz Hsz Hq. destruct (Hold q sz Hsz Hq) as (k0 & chk & Hle & Hk0 & Hin & _).
+              exists k0, chk. rewrite Ecu. split; [rewrite Ech, nth_error_app1 by lia; exact Hk0|]. split; [exact Hin|].
+              split; [lia|intros E; lia]. }
+          destruct (f ch) as [[res1 ch1]|] eqn:Efr.
+          -- injection Hs as <- <-. rewrite (Hsame _ _ _ Efr). rewrite set_nth_same by exact F5.
+             replace (upd_chunks s1 (chunks s1)) with s1 by (destruct s1; reflexivity).
+             destruct Hs1 as (A1 & A2 & A3). split; [exact A1|]. split; [exact A2|]. split; [exact A3|].
+             exists (length cs), ch. split; [exact Ecu|]. split; [exact F5|exact (Hval _ _ _ Efr)].
+          -- injection Hs as <- <-. destruct Hs1 as (A1 & A2 & A3). split; [exact A1|]. split; [exact A2|]. split; [exact A3|exact I].
+    - (* unallocated *)
+      assert (Hno : forall q sz, ~ placed c s q sz).
+      { intros q sz (k0 & chk & _ & _ & Hside). rewrite Ec in Hside. exact Hside. }
+      destruct (grow_arena c s size align r) as [s1 [e|]] eqn:Eg.
+      + injection Hs as <- <-.
+        destruct (grow_arena_spec c s size align r s1 (Some e) Hc Hr Eg) as (Hfr & Ech & Ecu).
+        assert (Hal : malign s1 = malign s) by (unfold malign; destruct Hfr as (_ & _ & _ & -> & _); reflexivity).
+        split; [exact Hfr|]. split.
+        { unfold ginv. rewrite Ech, Ecu, Hal, Ec. split; [exact Hok|]. split; [exact Hd|]. split; [exact Hm|exact Hcur]. }
+        split; [|exact I]. intros q sz _ Hq. exfalso. exact (Hno q sz Hq).
+      + destruct (grow_arena_spec c s size align r s1 None Hc Hr Eg)
+          as (Hfr & ch & addr & g & -> & Ech & Ecu & Hchok & Hc16 & Ecb & Ecg).
+        assert (Hal : malign s1 = malign s) by (unfold malign; destruct Hfr as (_ & _ & _ & -> & _); reflexivity).
+        rewrite Hcur in Ech, Ecu. cbn [app length] in Ech, Ecu.
+        rewrite Ecu in Hs. rewrite Ech in Hs at 1. cbn [nth_error] in Hs.
+        assert (F5 : nth_error (chunks s1) 0%nat = Some ch) by (rewrite Ech; reflexivity).
+        assert (Hs1 : frame s s1 /\ ginv c s1 /\ (forall q sz, 0 <= sz -> placed c s q sz -> placed c s1 q sz)).
+        { split; [exact Hfr|]. split.
+          - unfold ginv. rewrite Ech, Ecu. split; [constructor; [exact Hchok|constructor]|]. split.
+            + intros i j a b Hij Ha Hb. destruct i as [|[|i]], j as [|[|j]]; cbn in Ha, Hb; try discriminate; congruence.
+            + split; [rewrite Hal; exact Hm|]. exists ch. split; [reflexivity|].
+              rewrite Hal. eapply Z.divide_trans; [apply min_align_div16; exact Hm|exact Hc16].
+          - intros q sz _ Hq. exfalso. exact (Hno q sz Hq). }
+        destruct (f ch) as [[res1 ch1]|] eqn:Efr.
+        * injection Hs as <- <-. rewrite (Hsame _ _ _ Efr). rewrite set_nth_same by exact F5.
+          replace (upd_chunks s1 (chunks s1)) with s1 by (destruct s1; reflexivity).
+          destruct Hs1 as (A1 & A2 & A3). split; [exact A1|]. split; [exact A2|]. split; [exact A3|].
+          exists 0%nat, ch. split; [exact Ecu|]. split; [exact F5|exact (Hval _ _ _ Efr)].
+        * injection Hs as <- <-. destruct Hs1 as (A1 & A2 & A3). split; [exact A1|]. split; [exact A2|]. split; [exact A3|exact I]. }
+  unfold raw_prepare_range in H. cbv zeta in H. fold f in H.
+  destruct (cur s) as [i| |] eqn:Ec.
+  - destruct (nth_error (chunks s) i) as [ch|] eqn:En.
+    + destruct (chunk_prepare c ch size align) as [rng|] eqn:Ef.
+      * injection H as <- <-. split; [repeat split|]. split; [exact Hg|]. split; [auto|].
+        exists i, ch. split; [exact Ec|]. split; [exact En|exact Ef].
+      * apply (Hslow (Cur i)); [reflexivity|exact H].
+    + injection H as <- <-. split; [repeat split|]. split; [exact Hg|]. split; [auto|exact I].
+  - apply (Hslow Unalloc); [reflexivity|exact H].
+  - apply (Hslow Claimed); [reflexivity|exact H].
+Qed.
